@@ -422,6 +422,10 @@ theorem All2.imp {α β} {R S : α → β → Prop} (h : ∀ a b, R a b → S a 
   | _, _, .nil => .nil
   | _, _, .cons r rest => .cons (h _ _ r) (All2.imp h rest)
 
+theorem All2.length {α β} {R : α → β → Prop} : ∀ {as : List α} {bs : List β}, All2 R as bs → bs.length = as.length
+  | _, _, .nil => rfl
+  | _, _, .cons _ rest => by simp [All2.length rest]
+
 def OptRel {α β} (R : α → β → Prop) : Option α → Option β → Prop
   | some a, some b => R a b
   | none, none => True
@@ -1139,5 +1143,166 @@ theorem acyclic_of_rank {fs : FS} (rank : Ns → Nat) (h : ∀ a b, Edge fs a b 
   intro a hr
   have := key a a hr
   omega
+
+/-! ## Part 6: the second pass records every rule of every loaded file -/
+
+/-- the rules recorded for namespace `x`, in order -/
+def resRules (rs : List ResEntry) (x : Ns) : List Rule :=
+  (rs.filter fun e => decide (e.ns = x)).map (·.rule)
+
+theorem resRules_append (a b : List ResEntry) (x : Ns) :
+    resRules (a ++ b) x = resRules a x ++ resRules b x := by
+  simp [resRules]
+
+theorem resRules_same (l : List ResEntry) (cur : Ns) (h : ∀ e ∈ l, e.ns = cur) :
+    resRules l cur = l.map (·.rule) := by
+  induction l with
+  | nil => rfl
+  | cons e l ih =>
+    have he := h e (List.mem_cons_self ..)
+    have := ih (fun e' he' => h e' (List.mem_cons_of_mem _ he'))
+    simp [resRules, he] at this ⊢
+    exact this
+
+theorem resRules_other (l : List ResEntry) (cur x : Ns) (h : ∀ e ∈ l, e.ns = cur) (hx : x ≠ cur) :
+    resRules l x = [] := by
+  induction l with
+  | nil => rfl
+  | cons e l ih =>
+    have he := h e (List.mem_cons_self ..)
+    have := ih (fun e' he' => h e' (List.mem_cons_of_mem _ he'))
+    simp [resRules, he] at this ⊢
+    exact ⟨fun e => hx e.symm, this⟩
+
+theorem secondPass_resolved : ∀ (rs : List Rule) (st st' : St) (cur : Ns) (anc : List Ns),
+    secondPass st rs = .ok st' → st.stack = cur :: anc →
+    ∃ l, st'.resolved = st.resolved ++ l ∧ l.map (·.rule) = rs ∧ ∀ e ∈ l, e.ns = cur
+  | [], st, st', _, _, h, _ => by
+    simp [secondPass] at h; rw [← h]; exact ⟨[], by simp⟩
+  | r :: rs, st, st', cur, anc, h, hst => by
+    obtain ⟨cur', anc', c, ts, hst', _, _, h2⟩ := secondPass_cons_ok h
+    rw [hst] at hst'; cases hst'
+    obtain ⟨l, hl, hm, hn⟩ := secondPass_resolved rs _ st' cur anc h2 (by simpa using hst)
+    refine ⟨⟨c, cur, anc, r, ts⟩ :: l, by simp [hl, logRes], by simp [hm], ?_⟩
+    intro e he
+    rcases List.mem_cons.1 he with rfl | he
+    · rfl
+    · exact hn e he
+
+/-- `R`: namespaces whose second pass has not finished -/
+structure ResInv (fs : FS) (st : St) (R : List Ns) : Prop where
+  rkeys : ∀ x ∈ R, isKey st x
+  done : ∀ x, isKey st x → x ∉ R → ∃ f, fs x = some f ∧ resRules st.resolved x = f.rules
+  none : ∀ x, (x ∈ R ∨ ¬ isKey st x) → resRules st.resolved x = []
+
+theorem ResInv.congr {fs st st' R} (h : ResInv fs st R) (hk : ∀ x, isKey st' x ↔ isKey st x)
+    (hr : st'.resolved = st.resolved) : ResInv fs st' R where
+  rkeys x hx := (hk x).2 (h.rkeys x hx)
+  done x hx hxr := by rw [hr]; exact h.done x ((hk x).1 hx) hxr
+  none x hx := by
+    rw [hr]; apply h.none
+    rcases hx with hx | hx
+    · exact .inl hx
+    · exact .inr (fun h' => hx ((hk x).2 h'))
+
+def RSpec (fs : FS) (load : Ns → St → Except Err St) : Prop :=
+  ∀ n st st' rest, load n st = .ok st' → st.stack = n :: rest → ResInv fs st (n :: rest) → n ∉ rest →
+    ResInv fs st' rest
+
+theorem importAll_resInv {fs load} (hs : StackOK load) (hspec : RSpec fs load) :
+    ∀ (is : List Ns) (st s : St) (n : Ns) (rest : List Ns), importAll load is st = .ok s →
+      st.stack = n :: rest → ResInv fs st (n :: rest) → ResInv fs s (n :: rest)
+  | [], st, s, n, rest, h, _, hinv => by simp [importAll] at h; rw [← h]; exact hinv
+  | i :: is, st, s, n, rest, h, hst, hinv => by
+    obtain ⟨s1, h1, h2⟩ := importAll_cons_ok h
+    have hst1 : s1.stack = n :: rest := by rw [newImport_stack hs h1]; exact hst
+    have step : ResInv fs s1 (n :: rest) := by
+      obtain ⟨cur, rest', hst', hcase | ⟨hnk, s1', hs1', hcase⟩⟩ := newImport_ok h1
+      · rw [hcase.2]; exact hinv.congr (fun _ => Iff.rfl) rfl
+      · rw [hst] at hst'; cases hst'
+        have hfresh : absImport n i ∉ n :: rest := fun hm => hnk (hinv.rkeys _ hm)
+        have hinv0 : ResInv fs (enter st (absImport n i)) (absImport n i :: n :: rest) := by
+          constructor
+          · intro x hx
+            rcases List.mem_cons.1 hx with rfl | hx
+            · exact enter_key_self _ _
+            · exact enter_key _ _ _ (hinv.rkeys x hx)
+          · intro x hx hxr
+            have hxn : x ≠ absImport n i := fun e => hxr (by rw [e]; exact List.mem_cons_self ..)
+            have hx' : isKey st x := by
+              unfold isKey at *; rw [enter_nss_other _ _ _ hxn] at hx; exact hx
+            simpa using hinv.done x hx' (fun hm => hxr (List.mem_cons_of_mem _ hm))
+          · intro x hx
+            simp only [enter_resolved]
+            rcases hx with hx | hx
+            · rcases List.mem_cons.1 hx with rfl | hx
+              · exact hinv.none _ (.inr hnk)
+              · exact hinv.none x (.inl hx)
+            · exact hinv.none x (.inr (fun hk' => hx (enter_key _ _ _ hk')))
+        have hinv1 := hspec _ _ _ (n :: rest) hs1' (by simp [hst]) hinv0 hfresh
+        rw [hcase]
+        exact hinv1.congr (fun _ => Iff.rfl) rfl
+    exact importAll_resInv hs hspec is s1 s n rest h2 hst1 step
+
+theorem loadFile_rspec (fs : FS) : ∀ fuel, RSpec fs (loadFile fs fuel)
+  | 0 => by
+    intro n st st' rest h
+    obtain ⟨_, _, _, h0, _⟩ := loadFile_ok h
+    omega
+  | fuel + 1 => by
+    intro n st st' rest h hst hinv hnr
+    obtain ⟨f, fuel', s1, h0, hf, h1, h2⟩ := loadFile_ok h
+    have : fuel' = fuel := by omega
+    subst this
+    have hinv1 := importAll_resInv (loadFile_stack fs fuel') (loadFile_rspec fs fuel') f.imports _ s1 n rest h1
+      (by simpa using hst) (hinv.congr (st' := logOpen st n) (fun _ => Iff.rfl) rfl)
+    have hst1 : s1.stack = n :: rest := by
+      rw [importAll_stack (loadFile_stack fs fuel') _ _ _ h1]; simpa using hst
+    have hinv2 : ResInv fs (createAll s1 f.rules) (n :: rest) :=
+      hinv1.congr (fun x => createAll_key _ _ x) (by simp)
+    obtain ⟨l, hl, hm, hns⟩ := secondPass_resolved f.rules _ st' n rest h2 (by simpa using hst1)
+    have hk : ∀ x, isKey st' x ↔ isKey (createAll s1 f.rules) x := by
+      intro x; unfold isKey; rw [(secondPass_nss _ _ _ h2).1]
+    constructor
+    · intro x hx
+      exact (hk x).2 (hinv2.rkeys x (List.mem_cons_of_mem _ hx))
+    · intro x hx hxr
+      rw [hl, resRules_append]
+      by_cases hxn : x = n
+      · subst hxn
+        refine ⟨f, hf, ?_⟩
+        rw [hinv2.none x (.inl (List.mem_cons_self ..)), resRules_same l x hns, hm]; simp
+      · obtain ⟨fx, hfx, hrx⟩ := hinv2.done x ((hk x).1 hx) (by
+          intro hm'; rcases List.mem_cons.1 hm' with e | hm'
+          · exact hxn e
+          · exact hxr hm')
+        exact ⟨fx, hfx, by rw [hrx, resRules_other l n x hns hxn]; simp⟩
+    · intro x hx
+      have hxn : x ≠ n := by
+        intro e; subst e
+        rcases hx with hx | hx
+        · exact hnr hx
+        · exact hx ((hk x).2 (hinv2.rkeys x (List.mem_cons_self ..)))
+      rw [hl, resRules_append, resRules_other l n x hns hxn]
+      have := hinv2.none x (by
+        rcases hx with hx | hx
+        · exact .inl (List.mem_cons_of_mem _ hx)
+        · exact .inr (fun h' => hx ((hk x).2 h')))
+      simpa using this
+
+theorem loadMain_resInv {fs : FS} {fuel : Nat} {main : Seg} {st : St} (h : loadMain fs fuel main = .ok st) :
+    ResInv fs st [] := by
+  unfold loadMain at h
+  have hk0 : ¬ isKey St.empty [main] := by simp [isKey, St.empty]
+  apply loadFile_rspec fs fuel [main] _ st [] h (by simp [St.empty]) _ (by simp)
+  constructor
+  · intro x hx
+    simp at hx; subst hx; exact enter_key_self _ _
+  · intro x hx hxr
+    have hxn : x ≠ [main] := by simpa using hxr
+    unfold isKey at hx; rw [enter_nss_other _ _ _ hxn] at hx
+    simp [St.empty] at hx
+  · intro x _
+    simp [St.empty, resRules]
 
 end Imp
